@@ -174,7 +174,7 @@ PROPS = {
         "gen": gen.gen_C08,
     },
     "C09": {
-        "proj": {"ops": {"files", "open"}, "roles": ["cache"]},
+        "proj": {"ops": {"files", "open", "get"}, "roles": ["cache"]},
         "gen": gen.gen_C09,
     },
     "C10": {
